@@ -42,7 +42,11 @@ package format
 //@ func Parse(input) (h, payload, err)
 //@   requires input != nil
 //@   loop 1 invariant h != nil && rr != nil && sr != nil && sr.r == rr && sr.err == nil && (forall j in 0..len(h.Recipients) :: h.Recipients[j] != nil) && issuffix(rr.$rem, old(input.$rem))
+//@   loop 1 invariant#count len(h.Recipients) == calls("ReadStanza",1) - old(calls("ReadStanza",1))          [C01 C03 C07]
 //@   loop 1 decreases len(rr.$rem)
+//@   ensures#intro err == nil ==> sub(old(input.$rem), 0, 22) == "age-encryption.org/v1\n"                   [C03 C05 C07]
+//@   ensures#count err == nil ==> len(h.Recipients) == calls("ReadStanza",1) - old(calls("ReadStanza",1))    [C01 C03 C07]
+//@   ensures#footer err == nil ==> lastret("splitArgs",1,0) == "---" && len(lastret("splitArgs",1,1)) == 1        [C03 C05 C07]
 //@   ensures#reject err != nil ==> h == nil && payload == nil                       [C07 C14]
 //@   ensures#ok err == nil ==> h != nil && payload != nil && len(h.MAC) == 32       [C07]
 //@   ensures#stanzas err == nil ==> (forall j in 0..len(h.Recipients) :: h.Recipients[j] != nil)
